@@ -1,0 +1,455 @@
+//! Probes: thin wrappers that build the real private types of the I/O loop and call their
+//! real functions directly on the calling thread (compiled only with `--cfg amiquip_verif`).
+#![allow(missing_docs, dead_code, clippy::all)]
+
+use super::channel_slots::ChannelSlots;
+use super::connection_state::ConnectionState;
+use super::heartbeat_timers::HeartbeatTimers;
+use super::io_loop_handle::{IoLoopHandle, IoLoopHandle0};
+use super::{Channel0Handle, Channel0Slot, ChannelMessage, ChannelSlot, Inner, IoLoopMessage};
+use crate::errors::*;
+use crate::serialize::OutputBuffer;
+use crate::{Channel, Confirm, ConsumerMessage, Get, IoStream, Return};
+use amq_protocol::frame::AMQPFrame;
+use amq_protocol::protocol::AMQPClass;
+use crossbeam_channel::{Receiver, TryRecvError};
+use mio::Poll;
+use std::collections::BTreeMap;
+
+// ---------------------------------------------------------------------------------------
+// Channel id table
+// ---------------------------------------------------------------------------------------
+
+pub struct SlotsProbe {
+    slots: ChannelSlots<()>,
+}
+
+#[derive(Clone, Debug, PartialEq, Eq, Hash)]
+pub struct SlotsSnapshot {
+    pub open: Vec<u16>,
+    pub freed: Vec<u16>,
+    pub next_channel_id: u16,
+    pub channel_max: u16,
+}
+
+impl SlotsProbe {
+    pub fn new(channel_max: u16) -> SlotsProbe {
+        let mut slots = ChannelSlots::new();
+        slots.set_channel_max(channel_max);
+        SlotsProbe { slots }
+    }
+
+    /// `ChannelSlots::insert`; with `fail_entry` the entry constructor fails (the roll-back
+    /// path taken when e.g. registration with the poll handle fails).
+    pub fn insert(&mut self, id: Option<u16>, fail_entry: bool) -> Result<u16> {
+        self.slots.insert(id, |id| {
+            if fail_entry {
+                FrameUnexpectedSnafu.fail()
+            } else {
+                Ok(((), id))
+            }
+        })
+    }
+
+    pub fn remove(&mut self, id: u16) -> bool {
+        self.slots.remove(id).is_some()
+    }
+
+    pub fn drain(&mut self) -> Vec<u16> {
+        let mut v: Vec<u16> = self.slots.drain().map(|(id, _)| id).collect();
+        v.sort_unstable();
+        v
+    }
+
+    pub fn snapshot(&self) -> SlotsSnapshot {
+        let (open, freed, next_channel_id, channel_max) = self.slots.verif_snapshot();
+        SlotsSnapshot {
+            open,
+            freed,
+            next_channel_id,
+            channel_max,
+        }
+    }
+}
+
+// ---------------------------------------------------------------------------------------
+// Shared views
+// ---------------------------------------------------------------------------------------
+
+/// What a client handle sent to the I/O thread.
+#[derive(Debug, Clone, PartialEq)]
+pub enum TapMsg {
+    Send(Vec<u8>),
+    ConnectionClose(Vec<u8>),
+    SetReturnHandler(bool),
+    SetPubConfirmHandler(bool),
+}
+
+fn tap_of(m: IoLoopMessage) -> (TapMsg, IoLoopMessage) {
+    match m {
+        IoLoopMessage::Send(buf) => {
+            let v = buf[0..].to_vec();
+            (TapMsg::Send(v), IoLoopMessage::Send(buf))
+        }
+        IoLoopMessage::ConnectionClose(buf) => {
+            let v = buf[0..].to_vec();
+            (TapMsg::ConnectionClose(v), IoLoopMessage::ConnectionClose(buf))
+        }
+        IoLoopMessage::SetReturnHandler(h) => (
+            TapMsg::SetReturnHandler(h.is_some()),
+            IoLoopMessage::SetReturnHandler(h),
+        ),
+        IoLoopMessage::SetPubConfirmHandler(h) => (
+            TapMsg::SetPubConfirmHandler(h.is_some()),
+            IoLoopMessage::SetPubConfirmHandler(h),
+        ),
+    }
+}
+
+/// What the I/O thread sent to a client's reply queue.
+#[derive(Debug)]
+pub enum Reply {
+    Method(AMQPClass),
+    ConsumeOk(String, Receiver<ConsumerMessage>),
+    GetOk(Option<Get>),
+    Err(Error),
+}
+
+fn reply_of(r: Result<ChannelMessage>) -> Reply {
+    match r {
+        Ok(ChannelMessage::Method(m)) => Reply::Method(m),
+        Ok(ChannelMessage::ConsumeOk(tag, rx)) => Reply::ConsumeOk(tag, rx),
+        Ok(ChannelMessage::GetOk(get)) => Reply::GetOk(*get),
+        Err(e) => Reply::Err(e),
+    }
+}
+
+fn message_of(r: Reply) -> Result<ChannelMessage> {
+    match r {
+        Reply::Method(m) => Ok(ChannelMessage::Method(m)),
+        Reply::ConsumeOk(tag, rx) => Ok(ChannelMessage::ConsumeOk(tag, rx)),
+        Reply::GetOk(g) => Ok(ChannelMessage::GetOk(Box::new(g))),
+        Reply::Err(e) => Err(e),
+    }
+}
+
+// ---------------------------------------------------------------------------------------
+// Dispatch probe: the I/O thread's steady-state frame handling, without a thread
+// ---------------------------------------------------------------------------------------
+
+pub struct DispatchProbe {
+    poll: Poll,
+    inner: Inner,
+    state: ConnectionState,
+    handle0: IoLoopHandle0,
+    handles: BTreeMap<u16, Vec<IoLoopHandle>>,
+}
+
+#[derive(Clone, Debug, PartialEq, Eq, Hash, PartialOrd, Ord)]
+pub struct SlotFingerprint {
+    pub channel_id: u16,
+    pub collector: (u8, bool, usize, u64),
+    pub consumers: Vec<String>,
+    pub has_return_handler: bool,
+    pub has_confirm_handler: bool,
+}
+
+#[derive(Clone, Debug, PartialEq, Eq, Hash)]
+pub struct DispatchFingerprint {
+    pub state: &'static str,
+    pub sealed: bool,
+    pub outbuf_len: usize,
+    pub slots: Vec<SlotFingerprint>,
+    pub has_blocked_listener: bool,
+}
+
+impl DispatchProbe {
+    pub fn new(channel_max: u16, mem_channel_bound: usize) -> DispatchProbe {
+        let poll = Poll::new().expect("poll");
+        let mut inner = Inner::new(HeartbeatTimers::default(), mem_channel_bound);
+        // as after a completed handshake: protocol header written
+        inner.outbuf.clear();
+        inner.chan_slots.set_channel_max(channel_max);
+        let (ch0_slot, handle0) = Channel0Slot::new(mem_channel_bound);
+        DispatchProbe {
+            poll,
+            inner,
+            state: ConnectionState::Steady(ch0_slot),
+            handle0,
+            handles: BTreeMap::new(),
+        }
+    }
+
+    /// Allocate a channel through the real request queue and `Inner::allocate_channel`.
+    /// No Channel.Open is sent. The client-side handle is kept by the probe.
+    pub fn open_slot(&mut self, id: Option<u16>) -> Result<u16> {
+        let ch0_slot = match &self.state {
+            ConnectionState::Steady(s) => s,
+            _ => return EventLoopDroppedSnafu.fail(),
+        };
+        self.handle0
+            .verif_alloc_send(id)
+            .map_err(|_| Error::EventLoopDropped)?;
+        self.inner.allocate_channel(ch0_slot, &self.poll)?;
+        let handle = self.handle0.verif_alloc_recv()?;
+        let id = handle.channel_id();
+        self.handles.entry(id).or_default().push(handle);
+        Ok(id)
+    }
+
+    /// `ConnectionState::process` on one frame, as the read path does for each frame.
+    pub fn feed(&mut self, frame: AMQPFrame) -> Result<()> {
+        self.state.process(&mut self.inner, frame)
+    }
+
+    fn newest(&mut self, chan: u16) -> Option<&mut IoLoopHandle> {
+        if chan == 0 {
+            Some(&mut *self.handle0)
+        } else {
+            self.handles.get_mut(&chan).and_then(|v| v.last_mut())
+        }
+    }
+
+    fn pump(&mut self, chan: u16) -> Result<()> {
+        if chan == 0 {
+            match &self.state {
+                ConnectionState::Steady(s) => self.inner.handle_channel0_readable(s),
+                _ => Ok(()),
+            }
+        } else {
+            self.inner.handle_channel_readable(chan)
+        }
+    }
+
+    /// Client `chan` sends one method frame (no reply awaited); the I/O side then handles
+    /// the channel's queue. First result: the client's send; second: the I/O thread's.
+    pub fn client_send_method(&mut self, chan: u16, class: AMQPClass) -> (Result<()>, Result<()>) {
+        let sent = match self.newest(chan) {
+            Some(h) => h.verif_send_raw(class),
+            None => return (EventLoopDroppedSnafu.fail(), Ok(())),
+        };
+        let pumped = self.pump(chan);
+        (sent, pumped)
+    }
+
+    pub fn client_connection_close(&mut self) -> (Result<()>, Result<()>) {
+        let sent = self.handle0.verif_connection_close_send();
+        let pumped = self.pump(0);
+        (sent, pumped)
+    }
+
+    pub fn client_listen_returns(&mut self, chan: u16) -> (Result<Receiver<Return>>, Result<()>) {
+        let (tx, rx) = crossbeam_channel::unbounded();
+        let sent = match self.newest(chan) {
+            Some(h) => h.set_return_handler(Some(tx)).map(|()| rx),
+            None => return (EventLoopDroppedSnafu.fail(), Ok(())),
+        };
+        let pumped = self.pump(chan);
+        (sent, pumped)
+    }
+
+    pub fn client_listen_confirms(
+        &mut self,
+        chan: u16,
+    ) -> (Result<Receiver<Confirm>>, Result<()>) {
+        let (tx, rx) = crossbeam_channel::unbounded();
+        let sent = match self.newest(chan) {
+            Some(h) => h.set_pub_confirm_handler(Some(tx)).map(|()| rx),
+            None => return (EventLoopDroppedSnafu.fail(), Ok(())),
+        };
+        let pumped = self.pump(chan);
+        (sent, pumped)
+    }
+
+    /// Everything currently in `chan`'s reply queue (newest handle), and whether the queue
+    /// is disconnected afterwards.
+    pub fn drain_replies(&mut self, chan: u16) -> (Vec<Reply>, bool) {
+        let mut out = Vec::new();
+        let h = match self.newest(chan) {
+            Some(h) => h,
+            None => return (out, true),
+        };
+        loop {
+            match h.verif_try_recv() {
+                Ok(r) => out.push(reply_of(r)),
+                Err(TryRecvError::Empty) => return (out, false),
+                Err(TryRecvError::Disconnected) => return (out, true),
+            }
+        }
+    }
+
+    /// Bytes queued for the transport; the queue is emptied as after a complete write.
+    pub fn take_outbuf(&mut self) -> Vec<u8> {
+        let v = self.inner.outbuf[0..].to_vec();
+        self.inner.outbuf.clear();
+        v
+    }
+
+    pub fn outbuf_len(&self) -> usize {
+        self.inner.outbuf.len()
+    }
+
+    pub fn sealed(&self) -> bool {
+        self.inner.are_writes_sealed()
+    }
+
+    pub fn state_name(&self) -> &'static str {
+        match &self.state {
+            ConnectionState::Steady(_) => "Steady",
+            ConnectionState::ServerClosing(_) => "ServerClosing",
+            ConnectionState::ClientException => "ClientException",
+            ConnectionState::ClientClosed => "ClientClosed",
+        }
+    }
+
+    pub fn open_ids(&self) -> Vec<u16> {
+        self.inner.chan_slots.verif_snapshot().0
+    }
+
+    pub fn fingerprint(&self) -> DispatchFingerprint {
+        let mut slots: Vec<SlotFingerprint> = self
+            .inner
+            .chan_slots
+            .iter()
+            .map(|(id, slot)| {
+                let mut consumers: Vec<String> = slot.consumers.keys().cloned().collect();
+                consumers.sort();
+                SlotFingerprint {
+                    channel_id: *id,
+                    collector: slot.collector.verif_fingerprint(),
+                    consumers,
+                    has_return_handler: slot.return_handler.is_some(),
+                    has_confirm_handler: slot.pub_confirm_handler.is_some(),
+                }
+            })
+            .collect();
+        slots.sort();
+        DispatchFingerprint {
+            state: self.state_name(),
+            sealed: self.sealed(),
+            outbuf_len: self.inner.outbuf.len(),
+            slots,
+            has_blocked_listener: match &self.state {
+                ConnectionState::Steady(s) => s.blocked_tx.is_some(),
+                _ => false,
+            },
+        }
+    }
+}
+
+// ---------------------------------------------------------------------------------------
+// Channel probe: a real `Channel` whose I/O-thread ends are held by the caller
+// ---------------------------------------------------------------------------------------
+
+pub struct ChannelProbe {
+    slot: ChannelSlot,
+    ch0_slot: Channel0Slot,
+    channel0: Channel0Handle,
+}
+
+impl ChannelProbe {
+    /// Build channel 0 (as after a handshake that negotiated `frame_max`) and open channel
+    /// `id` through the real `Channel0Handle::open_channel`, with the allocation reply and
+    /// the Channel.OpenOk preloaded so that everything runs on the calling thread.
+    pub fn open(frame_max: usize, id: u16, mem_channel_bound: usize) -> (ChannelProbe, Channel) {
+        let (ch0_slot, handle0) = Channel0Slot::new(mem_channel_bound);
+        let mut channel0 = Channel0Handle::new(handle0, frame_max);
+        let (slot, handle) = ChannelSlot::new(mem_channel_bound, id);
+        ch0_slot
+            .alloc_chan_rep_tx
+            .send(Ok(handle))
+            .expect("preload alloc reply");
+        slot.tx
+            .send(Ok(ChannelMessage::Method(AMQPClass::Channel(
+                amq_protocol::protocol::channel::AMQPMethod::OpenOk(
+                    amq_protocol::protocol::channel::OpenOk {
+                        channel_id: String::new(),
+                    },
+                ),
+            ))))
+            .expect("preload open-ok");
+        let handle = channel0.open_channel(Some(id)).expect("open_channel");
+        let channel = Channel::new(handle);
+        let _ = ch0_slot.alloc_chan_req_rx.try_recv();
+        let probe = ChannelProbe {
+            slot,
+            ch0_slot,
+            channel0,
+        };
+        (probe, channel)
+    }
+
+    /// Everything the channel handle has sent to the I/O thread since the last tap.
+    pub fn tap(&self) -> Vec<TapMsg> {
+        let mut out = Vec::new();
+        while let Ok(m) = self.slot.rx.try_recv() {
+            out.push(tap_of(m).0);
+        }
+        out
+    }
+
+    /// Queue `reply` on the channel's reply queue before the blocking call is made.
+    pub fn preload(&self, reply: Reply) {
+        self.slot
+            .tx
+            .try_send(message_of(reply))
+            .expect("reply queue full");
+    }
+
+    /// Create a consumer queue pair as the I/O thread does on ConsumeOk.
+    pub fn consumer_pair() -> (crossbeam_channel::Sender<ConsumerMessage>, Receiver<ConsumerMessage>)
+    {
+        crossbeam_channel::unbounded()
+    }
+
+    /// `Connection::close`'s request: what channel 0 hands to the I/O thread.
+    pub fn close_connection_tap(&mut self) -> (Result<()>, Vec<TapMsg>) {
+        self.ch0_slot
+            .common
+            .tx
+            .try_send(Ok(ChannelMessage::Method(AMQPClass::Connection(
+                amq_protocol::protocol::connection::AMQPMethod::CloseOk(
+                    amq_protocol::protocol::connection::CloseOk {},
+                ),
+            ))))
+            .expect("preload close-ok");
+        let r = self.channel0.close_connection();
+        let mut out = Vec::new();
+        while let Ok(m) = self.ch0_slot.common.rx.try_recv() {
+            out.push(tap_of(m).0);
+        }
+        (r, out)
+    }
+}
+
+// ---------------------------------------------------------------------------------------
+// Write probe: the outbound buffer and `write_to_stream`
+// ---------------------------------------------------------------------------------------
+
+pub struct WriteProbe {
+    inner: Inner,
+}
+
+impl WriteProbe {
+    /// A fresh connection's output side: holds the 8-byte protocol header.
+    pub fn new() -> WriteProbe {
+        WriteProbe {
+            inner: Inner::new(HeartbeatTimers::default(), 16),
+        }
+    }
+
+    /// A client handle hands `bytes` (one or more serialized frames) to the I/O thread.
+    pub fn queue(&mut self, bytes: Vec<u8>) {
+        self.inner
+            .process_channel_message(1, IoLoopMessage::Send(OutputBuffer::verif_from_vec(bytes)))
+            .expect("queue");
+    }
+
+    pub fn write<S: IoStream>(&mut self, stream: &mut S) -> Result<()> {
+        self.inner.write_to_stream(stream)
+    }
+
+    pub fn pending(&self) -> usize {
+        self.inner.outbuf.len()
+    }
+}
